@@ -26,6 +26,7 @@ pub fn dispatch(ctx: &Ctx, rest: &[String]) -> i32 {
         "C12" => c12::run(ctx),
         "C12-child" => c12::child(ctx, rest),
         "C13" => c13::run(ctx),
+        "C14" => c14::run(ctx),
         "C16" => c16::run(ctx),
         "C06-child" => c06::child(ctx, rest),
         other => {
@@ -187,6 +188,7 @@ pub mod c06;
 pub mod c11;
 pub mod c12;
 pub mod c13;
+pub mod c14;
 pub mod c16;
 pub mod hist;
 pub mod histcheck;
